@@ -180,7 +180,7 @@ pub fn run(cfg: &Cfg) {
         let label = format!("history {} ({} ops)", hi, nops);
         match &sc.strat {
             Strat1::Linear => {
-                let interp = Interp1DBuilder::new(data).x(x).strategy(Linear::new().extrapolate(sc.ext)).build().unwrap();
+                let interp = Interp1DBuilder::new(data).x(x).strategy(crate::scen::configure_linear(sc.ext)).build().unwrap();
                 run_history(&mut rep, &mut rng, &interp, &sc.trail, &ops, &label, threads);
             }
             Strat1::Spline(_) => {
